@@ -611,15 +611,24 @@ func (x *exec) appendOp(fr *frame, s *State, cc *ssa.CallCommon, args []*Val, po
 		appended = Sel(Sel(h, bref), x.c.IAdd(boff, x.c.ISub(j, x.c.IAdd(roff, alen))))
 	}
 	// single-element appends are expressed without quantifiers
-	if n, ok := x.constIdx(bl); ok && n <= 4 && !isStr {
-		arr := Ite(inplace, oldArr, newArr)
-		res := arr
-		for k := int64(0); k < n; k++ {
-			res = Sto(res, x.c.IAdd(roff, x.c.IAdd(alen, x.c.ILit(k))), Sel(Sel(h, bref), x.c.IAdd(boff, x.c.ILit(k))))
+	nStatic := int64(-1)
+	if sl2, ok := cc.Args[1].(*ssa.Slice); ok && sl2.Low == nil && sl2.High == nil {
+		if a, ok := sl2.X.(*ssa.Alloc); ok {
+			if at, ok := a.Type().Underlying().(*types.Pointer).Elem().Underlying().(*types.Array); ok {
+				nStatic = at.Len()
+			}
 		}
-		// the fresh array holds the old elements at [0, alen)
-		x.c.Axiom([]string{newArr}, fmt.Sprintf("(forall ((%s %s)) (! (=> (and %s %s) (= (select %s %s) (select %s %s))) :pattern ((select %s %s))))",
-			j, I, x.c.ICmp("<=", x.c.ILit(0), j), x.c.ICmp("<", j, alen), newArr, j, oldArr, x.c.IAdd(aoff, j), newArr, j))
+	}
+	if n := nStatic; n >= 0 && n <= 4 && !isStr {
+		// append(s, x1..xn) with n known: quantifier-free. A reallocated backing store is modelled as a
+		// copy of the whole old backing array at the same offset (positions outside [off, off+len) of a
+		// fresh store are zero in Go and "old contents" here — only visible by re-slicing into spare capacity).
+		roff = aoff
+		res := oldArr
+		for k := int64(0); k < n; k++ {
+			res = Sto(res, x.c.EIdx(aoff, x.c.IAdd(alen, x.c.ILit(k))), Sel(Sel(h, bref), x.c.EIdx(boff, x.c.ILit(k))))
+		}
+		x.assume(s, Eq(bl, x.c.ILit(n)))
 		x.h.set(s, name, sortN, Sto(h, rref, res))
 	} else {
 		inOld := And(x.c.ICmp("<=", roff, j), x.c.ICmp("<", j, x.c.IAdd(roff, alen)))
